@@ -85,6 +85,22 @@ func init() {
 					specs = append(specs, lg)
 				}
 			}
+			// mappings given by a base and an index offset other than the default, as a
+			// decoder or the WithGamma constructors build them
+			for i, mk := range []byte{'G', 'I', 'C'} {
+				ms := MapSpec{Kind: mk, Gamma: 1.21, Offset: -2.5}
+				k := nonCollapsing[i%len(nonCollapsing)]
+				sp := &SketchScenarioSpec{Name: fmt.Sprintf("C01/%s/%s", ms, k), Property: "C01", Map: ms, Stores: []Kind{k}, Depth: 3,
+					Checks: []func(*SketchWorld, int) []mc.Fail{checkC01()}}
+				if tier == "thorough" {
+					sp.Depth = 4
+				}
+				for _, v := range dedupFloats(edgeValues(ms.New(), k, tier == "thorough")) {
+					sp.Ops = append(sp.Ops, skAdd(0, v))
+				}
+				sp.Ops = append(sp.Ops, skRead(0))
+				specs = append(specs, sp)
+			}
 			// sketches built by the convenience constructors: the accuracy asked of
 			// the constructor is the accuracy the answers must have
 			alphas := []float64{0.1}
